@@ -70,6 +70,12 @@ CHECKS.update({
    note="two genuine defect classes are known findings: the parser accepts tables in which an O-group's first key equals another sequence typed plainly, and the matcher follows two hypotheses at most (sequences sharing a differently-encoded typed prefix); a third (O-group followed by further items could not complete) was repaired. sequence-always-on is only combined with the modes in which it is usable (not hidden-suppressed)."),
 })
 
+CHECKS.update({
+ "C16": dict(cat="exploration", ref="D5 C16", tech="deterministic simulation, differential: original vs rewritten configuration (seeded neutral rewrites incl. the include-file seam) driven by the same seeded history on fresh instances",
+   text="For generated configurations and 1-4 random semantically neutral rewrites (defalias, defvar for numbers and lists, deftemplate / template-expand / t! with parameters and if-equal guards, include files through the file-provider seam, platform wrappers, deflayer -> deflayermap) both texts must be accepted or both rejected, intercept the same keys and, driven by the same history, produce identical output traces tick for tick.",
+   note="the relation is between two programs: nothing is scheduled or faulted beyond the file-provider seam (scope note in DESIGN.md); rewrite sites are layer actions and top-level forms."),
+})
+
 NA = {
  "C11": "pure function of a 16-bit code / key name / config (discriminant tables, a transmute, set construction): no schedule, clock, fault or interleaving for a simulator to vary (DESIGN.md D7)",
 }
